@@ -301,7 +301,9 @@ MStepVerdict(mode, ctx, st, reg, ed) ==
        LET nx == EdStep(reg, ed, d, out, SetUnion) IN
        [names |-> Names(<<
            <<"ed-skip",   ed.err => (\A i \in 1..Len(post) : SameD(post[i], reg[i]))>>,
-           <<"ed-same-op", (~ed.err /\ (~out.err \/ ~composite)) => SameD(post[d], nx.reg[d])>>,
+           \* the destination is compared unless the step ended in an error that is not a trapped condition of a
+           \* single-rounding operation (system limit, zero precision, composite function: destination unspecified)
+           <<"ed-same-op", (~ed.err /\ (~out.err \/ (~composite /\ And(st.ref.fl, ctx.t) # 0))) => SameD(post[d], nx.reg[d])>>,
            <<"ed-flags",  BitSet(st.edfl) = nx.ed.flags>>,
            <<"ed-err",    st.ederr = nx.ed.err>>,
            <<"ed-count",  (~ed.err /\ st.op = "reduce") => st.cnt = st.ref.cnt>>,
